@@ -9,13 +9,13 @@ LEVEL = "model_checking"
 LEVEL_TEXT = ("AuthFlow.tla models the calls protocol handlers make into the path manager (FindPathConf, Describe, AddReader, "
               "AddPublisher with / without skipAuth and ConfToCompare) interleaved with configuration reloads; TLC checks "
               "AttachOnlyIfAdmitted, SkipAuthOnlyAfterAuth and PublisherConfStillInForce for every flow shape and admission outcome "
-              "and enumerates the scenario space; every scenario is played by a real client (gortsplib, gortmplib, net/http) "
+              "and enumerates the scenario space; every scenario is played by a real client (gortsplib, gortmplib, gosrt, net/http) "
               "against a real core.Core whose path manager's authManager is wrapped by a recorder; TLC evaluates the statement on "
               "the recorded Authenticate calls, reloads and the attachment read from the path manager's API; 'admitted' is C01's "
               "statement formula over the configured users")
-LEVEL_NOTE = ("protocols bound to real clients: RTSP, RTMP (publish and read), HLS (read, client IP through the trusted proxy); "
-              "SRT, WebRTC and MoQ flows are covered by the model only; reload between authorization and attachment is "
-              "client-driven (RTSP: ANNOUNCE..RECORD, RTMP: publish command..first tracks); one fresh path name per scenario")
+LEVEL_NOTE = ("protocols bound to real clients: RTSP, RTMP, SRT (publish and read), HLS (read, client IP through the trusted proxy); "
+              "WebRTC and MoQ flows are covered by the model only; reload between authorization and attachment is "
+              "client-driven (RTSP: ANNOUNCE..RECORD, RTMP / SRT: accepted publish request..first tracks); one fresh path name per scenario")
 TECHNIQUE = "TLA+ model (TLC): exhaustive bounded MC + generated scenarios replayed on a real Core + trace validation"
 
 PKG = "./internal/core/"
